@@ -418,8 +418,22 @@ def check_sync_transport(ctx, R):
     sets = [n for n in own_nodes(f.node) if isinstance(n, ast.Try) and any(
         isinstance(x, ast.Call) and _call_name(x) == 'set' for s in n.finalbody for x in ast.walk(s))]
     waits = [n for n in own_nodes(fn.node) if isinstance(n, ast.Call) and _call_name(n) == 'wait']
-    R.ob('SYNC-TRANSPORT', con, 'wait', bool(sets) and bool(waits),
-         'the completion event is not set in a finally clause / not waited for by the caller', ctx.where(fn, fn.node.lineno))
+    # every timed wait must be re-checked: inside `while not e.is_set()` or `if not e.wait(t): raise`
+    okw, wline = bool(waits), fn.node.lineno
+    for w in waits:
+        if not w.args and not w.keywords:
+            continue                      # waits until set
+        ev = src(w.func.value)
+        in_loop = any(isinstance(l, ast.While) and src(l.test).replace(' ', '') == 'not%s.is_set()' % ev
+                      and any(x is w for x in ast.walk(l)) for l in own_nodes(fn.node))
+        tested = any(isinstance(i, ast.If) and any(x is w for x in ast.walk(i.test)) and
+                     any(isinstance(b, ast.Raise) for b in i.body) for i in own_nodes(fn.node))
+        if not in_loop and not tested:
+            okw, wline = False, w.lineno
+    R.ob('SYNC-TRANSPORT', con, 'wait', bool(sets) and okw,
+         'the calling thread can return before the coroutine has finished: a timed wait on the completion event is neither '
+         'repeated until the event is set nor turned into a timeout error (or the event is not set in finally)',
+         ctx.where(fn, wline))
 
 
 # ----------------------------------------------------------------------------- metadata flow (C10)
